@@ -565,7 +565,8 @@ TRUSTED = [
 ]
 THEOREMS_IM = ["C13_unmarshal_alloc_bounded", "C13_unmarshal_marshal", "C13_marshal_injective", "C13_unmarshal_total_no_panic", "C13_load_no_panic",
                "C13_refactor_preserves_lookup", "C13_refactor_idempotent", "C13_refactor_wf",
-               "C13_dump_load_dump_stable", "C13_compiled_dump_is_fixed_point", "C13_marshal_charge"]
+               "C13_dump_load_dump_stable", "C13_compiled_dump_is_fixed_point", "C13_marshal_charge",
+               "C13_unmarshal_consumes_prefix", "C13_unmarshal_total_within_input", "C13_unmarshal_threshold_independent"]
 
 
 def hx(b):
